@@ -415,6 +415,10 @@ func c15Records(t *rapid.T, n int, key string) []*hx.Spec {
 		}
 		rec.R = keyRep
 		out = append(out, rec)
+		// now and then a nil stands among the records
+		if !typed && rapid.IntRange(0, 7).Draw(t, "nil-element") == 0 {
+			out = append(out, hx.SNil())
+		}
 	}
 	return out
 }
@@ -428,7 +432,7 @@ func TestC15(t *testing.T) {
 	maxLen := env.Pick(3, 4)
 	app := c15Apply.On(col, fmt.Sprintf("bounded-exhaustive: all arrays of length 0..%d over {0,1,2}, {0.5,1.5,2}, {\"a\",\"b\",\"B\"}, each with and without nil, in every Go representation they can take ([]any, typed slice, fixed array, Go range for integer intervals, ordered YAML map values) x {sort reverse uniq compact first last size join concat}; then rapid: arrays up to length 8, arrays of maps with present/absent/nil key through sort: key and map: key, and chains of up to 4 filters. Oracle: reference functions (sort: the unique ascending order, entries lacking the key first, unspecified when ties/mixed kinds/nil elements leave it open; uniq by reference ==; join skips nil); the input iterates the same afterwards and the Go binding's deep fingerprint is unchanged; every representation renders exactly like the equal []any. Non-trivial: >= 2 elements of which >= 2 distinct; distinct by (filter, array, representation)", maxLen), false)
 	idx := 0
-	reps := []string{"", "typed", "array", "range", "mapslice", "typed:int8", "typed:int32", "typed:int64", "typed:uint16", "typed:uint", "typed:float32", "emptyrange", "emptyrange2"}
+	reps := []string{"", "typed", "array", "namedany", "range", "mapslice", "typed:int8", "typed:int32", "typed:int64", "typed:uint16", "typed:uint", "typed:float32", "emptyrange", "emptyrange2"}
 	var rec func(al []*hx.Spec, cur []*hx.Spec, n int)
 	rec = func(al []*hx.Spec, cur []*hx.Spec, n int) {
 		if len(cur) == n {
@@ -498,14 +502,14 @@ func TestC15(t *testing.T) {
 			c.Elems = c15Records(t, rapid.IntRange(0, 6).Draw(t, "n"), key)
 			c.Filter = rapid.SampledFrom([]string{"sort:" + key, "sort:" + key, "map:" + key, "map:id", "sort:id", "reverse", "first", "last", "size", "uniq", "compact"}).Draw(t, "rf")
 			var fit []string
-			for _, r := range []string{"", "typed", "array", "mapslice"} {
+			for _, r := range []string{"", "typed", "array", "namedany", "mapslice"} {
 				if _, ok := c15Realise(c.Elems, r); ok {
 					fit = append(fit, r)
 				}
 			}
 			c.Rep = rapid.SampledFrom(fit).Draw(t, "rep")
 			if strings.HasPrefix(c.Filter, "map") {
-				c.Chain = []string{rapid.SampledFrom([]string{"compact", "uniq", "reverse", "join", "first", "size"}).Draw(t, "after")}
+				c.Chain = []string{rapid.SampledFrom([]string{"compact", "uniq", "reverse", "join", "first", "last", "size", "size"}).Draw(t, "after")}
 			}
 		} else {
 			al := rapid.SampledFrom(c15Alphabets).Draw(t, "alphabet")
